@@ -21,37 +21,48 @@ def hrf_digest():
             'argmin': int(h.argmin()), 'min': float(h.min()), 'sha1': hashlib.sha1(h.tobytes()).hexdigest()}
 
 
+def dm_case(rng, form):
+    """one event table / TR / volume count / confound table of the given form:
+    noconf | confounds (all complete) | dropna (>= 1 column with n/a) | assert (wrong row count)"""
+    tr = rng.choice([F(1), F(2), F(3, 2), F(3, 4), F(5, 2)])
+    n_vols = rng.randint(24, 48)
+    total = tr * (n_vols - 1)
+    nc = rng.randint(1, 4)
+    conds = rng.sample(CONDS, nc)
+    events = []
+    for c in conds:
+        for _ in range(rng.randint(1, 4)):
+            onset = F(rng.randint(0, int(total * 4 * F(3, 5))), 4)
+            events.append([c, rat(onset), rat(F(rng.randint(2, 24), 4))])
+    rng.shuffle(events)
+    cf = None
+    if form != 'noconf':
+        cf = []
+        names = rng.sample(CFNAMES, rng.randint(1, 4))
+        holes = [form == 'dropna' and rng.random() < 0.5 for _ in names]
+        if form == 'dropna' and not any(holes):
+            holes[rng.randrange(len(holes))] = True
+        for name, hole in zip(names, holes):
+            col = [rat(F(rng.randint(-64, 64), 16)) for _ in range(n_vols)]
+            if hole:
+                col[rng.choice([0, 0, 0, n_vols - 1])] = None
+            cf.append([name, col])
+        if form == 'assert':
+            cf = [[n, c[:-1]] for n, c in cf]
+    return {'kind': 'dm', 'events': events, 'tr': rat(tr), 'n_vols': n_vols, 'confounds': cf,
+            'form': form}
+
+
 def gen(rng, tier):
     k = 1 if tier == 'quick' else 15
+    # directed skeleton: every dm:* tag whatever the PRNG draws
     yield {'kind': 'dm', 'form': 'hrf_table'}
+    for form in ('noconf', 'confounds', 'dropna', 'assert'):
+        yield dm_case(rng, form)
     for i in range(30 * k):
-        tr = rng.choice([F(1), F(2), F(3, 2), F(3, 4), F(5, 2)])
-        n_vols = rng.randint(24, 48)
-        total = tr * (n_vols - 1)
-        nc = rng.randint(1, 4)
-        conds = rng.sample(CONDS, nc)
-        events = []
-        for c in conds:
-            for _ in range(rng.randint(1, 4)):
-                onset = F(rng.randint(0, int(total * 4 * F(3, 5))), 4)
-                events.append([c, rat(onset), rat(F(rng.randint(2, 24), 4))])
-        rng.shuffle(events)
-        cf = None
-        form = 'noconf'
-        if i % 3 != 0:
-            form = 'confounds'
-            cf = []
-            for name in rng.sample(CFNAMES, rng.randint(1, 4)):
-                col = [rat(F(rng.randint(-64, 64), 16)) for _ in range(n_vols)]
-                if rng.random() < 0.35:
-                    col[rng.choice([0, 0, 0, n_vols - 1])] = None
-                    form = 'dropna'
-                cf.append([name, col])
-            if rng.random() < 0.08:
-                cf = [[n, c[:-1]] for n, c in cf]
-                form = 'assert'
-        yield {'kind': 'dm', 'events': events, 'tr': rat(tr), 'n_vols': n_vols, 'confounds': cf,
-               'form': form}
+        r = rng.random()
+        yield dm_case(rng, 'noconf' if i % 3 == 0 else
+                      'assert' if r < 0.08 else 'dropna' if r < 0.5 else 'confounds')
 
 
 def _frames(case):
